@@ -1612,8 +1612,12 @@ ws_handler(nng_http *conn, void *arg, nng_aio *aio)
 			status = NNG_HTTP_STATUS_BAD_REQUEST;
 			goto err;
 		}
-	} else if ((l->proto == NULL) ||
+	} else if ((l->proto == NULL) || (proto[0] == '\0') ||
+	    (strpbrk(proto, " ,") != NULL) ||
 	    (!ws_contains_word(l->proto, proto))) {
+		// NB: the value is echoed in the response below, where it
+		// has to be a single token (RFC 6455 4.2.2), so a client
+		// that offers a list of subprotocols is refused.
 		status = NNG_HTTP_STATUS_BAD_REQUEST;
 		goto err;
 	}
